@@ -237,6 +237,45 @@ func runC11(t *testing.T, tape *sim.Tape, tier string) *Outcome {
 		bigCuts = append(bigCuts, pstart+lineEnds[len(lineEnds)-1], end-3, end-2, end-1, end)
 		o.stat("pipelines_with_large_value", 1)
 	}
+	// the framework also takes simple strings (+text) as arguments: a quarter of the pipelines send some arguments
+	// that way (a cut inside such a line is a cut inside the request like any other)
+	if !bigMode && tape.Draw(4, "statusargs") == 3 {
+		for _, r := range protoReqs {
+			var b []byte
+			b = append(b, fmt.Sprintf("*%d\r\n", len(r.Args))...)
+			for i, a := range r.Args {
+				if i > 0 && !strings.ContainsAny(a, "\r\n") && tape.Draw(2, "asstatus") == 1 {
+					b = append(b, '+')
+					b = append(b, a...)
+					b = append(b, "\r\n"...)
+				} else {
+					b = append(b, resp.Bs(a).Encode()...)
+				}
+			}
+			r.Bytes = b
+		}
+		o.stat("pipelines_with_simple_string_arguments", 1)
+	}
+	// one pipeline in eight sends its requests in the inline framing ("SET k v\r\n"): a server need not support it
+	// (then the fault-free run does not answer and the pipeline is skipped), but if it does, a cut line is a cut request
+	inline := false
+	if !bigMode && tape.Draw(8, "inline") == 7 {
+		ok := true
+		for _, r := range protoReqs {
+			for _, a := range r.Args {
+				if a == "" || strings.ContainsAny(a, " \t\r\n\x00\"'") {
+					ok = false
+				}
+			}
+		}
+		if ok {
+			inline = true
+			for _, r := range protoReqs {
+				r.Bytes = []byte(strings.Join(r.Args, " ") + "\r\n")
+			}
+			o.stat("pipelines_in_inline_framing", 1)
+		}
+	}
 	total := 0
 	for _, r := range protoReqs {
 		total += len(r.Bytes)
@@ -253,6 +292,13 @@ func runC11(t *testing.T, tape *sim.Tape, tier string) *Outcome {
 	o.LogHash = ref.S.LogHash()
 	refVals, _, _, err := ref.decodeReplies()
 	ref.finish()
+	if inline && ref.panicVal == nil && (err != nil || len(refVals) != len(protoReqs) || len(ref.calls) == 0) {
+		// the server does not take the inline framing: nothing to decide for this pipeline
+		o.stat("inline_framing_not_supported", 1)
+		o.Nontrivial = true
+		o.Sched = fmt.Sprintf("inline-unsupported|%x", hash64(string(ref.stream)))
+		return o
+	}
 	if err != nil || len(refVals) != len(protoReqs) || ref.panicVal != nil {
 		o.violate("c11:reference-run", "fault-free run of the pipeline did not answer every request (%d of %d, err %v, panic %v): %v", len(refVals), len(protoReqs), err, ref.panicVal, reqSummary(protoReqs))
 		return o
@@ -386,7 +432,7 @@ func init() {
 	register(&Check{
 		ID: "C11", Bubble: true, Run: runC11,
 		Runs:   map[string]int{"quick": 176, "thorough": 5000},
-		Rule:   "per generated pipeline (1..4 valid requests, <= 420 bytes): every byte offset 0..len x {half-close, close, reset, reset whose error only one read reports (then end of stream, as on Linux)} x 2 delivery schedules (whole prefix, seeded chunking), plus one reset per offset that drops a drawn amount of undelivered bytes - enumerated completely per pipeline; one pipeline in eight instead ends with a 70 KB text value of CRLF-terminated lines whose cuts are sampled at structural places (after embedded line ends, around powers of two of the payload, inside the terminator); every second run goes through the TLS port instead: a real crypto/tls client (1.2 or 1.3) writes a pipeline of complete requests, optionally a partial one, and ends its stream at once (close_notify or close right behind the last record); pipelines are sampled; distinct = distinct (pipeline, offset, end mode, schedule, drop) tuples; every case ends a stream so all are non-trivial",
+		Rule:   "per generated pipeline (1..4 valid requests, <= 420 bytes, in a quarter of them some arguments sent as simple strings): every byte offset 0..len x {half-close, close, reset, reset whose error only one read reports (then end of stream, as on Linux)} x 2 delivery schedules (whole prefix, seeded chunking), plus one reset per offset that drops a drawn amount of undelivered bytes - enumerated completely per pipeline; one pipeline in eight instead ends with a 70 KB text value of CRLF-terminated lines whose cuts are sampled at structural places (after embedded line ends, around powers of two of the payload, inside the terminator); every second run goes through the TLS port instead: a real crypto/tls client (1.2 or 1.3) writes a pipeline of complete requests, optionally a partial one, and ends its stream at once (close_notify or close right behind the last record); pipelines are sampled; distinct = distinct (pipeline, offset, end mode, schedule, drop) tuples; every case ends a stream so all are non-trivial",
 		Real:   []string{"redis.Server connection loop, parser, dispatch, executors, connection registry"},
 		Stub:   []string{"transport: simulated net.Conn with FIN / full close / RST", "handler: recording double"},
 		Assume: []string{"the expected handler calls of a completely received request are those of the fault-free run of the same pipeline"},
